@@ -43,6 +43,8 @@ func (fr *FuncRun) specialStatic(f *Frame, st *State, c *ssa.CallCommon, callee 
 		recvText = exprText(c.Args[0])
 	}
 	full = strings.ReplaceAll(full, "github.com/sasha-s/go-deadlock.", "sync.")
+	// go.uber.org/atomic's Bool has the semantics of sync/atomic's
+	full = strings.ReplaceAll(full, "go.uber.org/atomic.Bool", "sync/atomic.Bool")
 	switch full {
 	case "(*sync.Mutex).Lock", "(*sync.RWMutex).Lock":
 		a := fr.mutexAddr(args[0])
